@@ -163,6 +163,7 @@ type c03cfg struct {
 	validator string // nil, accept, reject
 	curIsACS  bool
 	entry     string
+	idpInit   bool
 }
 
 func (c c03cfg) String() string {
@@ -206,6 +207,9 @@ func runC03(c *core.Ctx) {
 		{Name: "dest", N: 10, Label: func(i int) string { return destNames[i] }},
 		{Name: "aud", N: len(audSeqs), Weight: audWeight, Label: audLabel},
 		{Name: "status", N: len(statusVals), Label: func(i int) string { return statusVals[i].name }},
+		// options / attributes that must not matter for the addressing checks
+		{Name: "method", N: 4, Label: func(i int) string { return []string{"bearer", "conf1-holder-of-key", "conf2-sender-vouches", "all-holder-of-key"}[i] }},
+		{Name: "idpinit", N: 2, Label: func(i int) string { return []string{"off", "AllowIDPInitiated"}[i] }},
 	}
 	k := 2
 	if c.Thorough() {
@@ -218,7 +222,7 @@ func runC03(c *core.Ctx) {
 			for _, v := range []string{"nil", "accept", "reject"} {
 				for _, cur := range []bool{true, false} {
 					for _, e := range []string{"xml", "form"} {
-						cfgs = append(cfgs, c03cfg{lay, es, v, cur, e})
+						cfgs = append(cfgs, c03cfg{lay: lay, entitySet: es, validator: v, curIsACS: cur, entry: e})
 					}
 				}
 			}
@@ -226,11 +230,11 @@ func runC03(c *core.Ctx) {
 	}
 	spCache := map[string]*saml.ServiceProvider{}
 	getSP := func(cf c03cfg) *saml.ServiceProvider {
-		key := fmt.Sprint(cf.entitySet, cf.validator)
+		key := fmt.Sprint(cf.entitySet, cf.validator, cf.idpInit)
 		if sp, ok := spCache[key]; ok {
 			return sp
 		}
-		sp := harness.NewSP(harness.SPOpt{NoEntityID: !cf.entitySet})
+		sp := harness.NewSP(harness.SPOpt{NoEntityID: !cf.entitySet, AllowIDPInit: cf.idpInit})
 		switch cf.validator {
 		case "accept":
 			sp.ValidateAudienceRestriction = func(*saml.Assertion) error { return nil }
@@ -254,6 +258,21 @@ func runC03(c *core.Ctx) {
 			c2 := a.Confirmations[0]
 			c2.Recipient = nearMiss(samlgen.SPAcs, idx[3]-1)
 			a.Confirmations = append(a.Confirmations, c2)
+		}
+		hok, sv := "urn:oasis:names:tc:SAML:2.0:cm:holder-of-key", "urn:oasis:names:tc:SAML:2.0:cm:sender-vouches"
+		switch idx[7] {
+		case 1:
+			a.Confirmations[0].Method = hok
+		case 2:
+			if len(a.Confirmations) > 1 {
+				a.Confirmations[1].Method = sv
+			} else {
+				a.Confirmations[0].Method = sv
+			}
+		case 3:
+			for i := range a.Confirmations {
+				a.Confirmations[i].Method = hok
+			}
 		}
 		resp.Destination = destVal(idx[4])
 		a.Audiences = nil
@@ -335,6 +354,9 @@ func runC03(c *core.Ctx) {
 		case dc:
 			return core.DontCare, false
 		}
+		if idx[7] != 0 {
+			return core.DontCare, false // no obligation to accept assertions whose confirmations are not all bearer
+		}
 		return core.MustAccept, false
 	}
 
@@ -357,12 +379,13 @@ func runC03(c *core.Ctx) {
 		}
 		for _, cf := range cfgs {
 			cf := cf
+			cf.idpInit = pt[8] == 1
 			if cf.entry == "form" && dev > 1 && !c.Thorough() {
 				continue // quick: the POST-form entry point only for <= 1 deviation
 			}
 			key := plabel + "|" + cf.String()
 			c.Case(key, func(t *core.T) {
-				dk := fmt.Sprint(pt, cf.lay, cf.entitySet)
+				dk := fmt.Sprint(pt[:8], cf.lay, cf.entitySet)
 				doc, ok := docCache[dk]
 				if !ok {
 					if len(docCache) > 20000 {
